@@ -669,6 +669,15 @@ func ruleHistoricReaderMode(c *Ctx) {
 			case *ast.BinaryExpr:
 				if x.Op == token.AND_NOT && hasFlag(x.Y) {
 					verdict, why = "ok", "mode masked with &^ ModeGCFlag"
+					// nothing but the visibility flag may be cleared: the other bits of the mode say how the records
+					// of the store are laid out (ModeLatest: every record ends with the active flag and the reference
+					// counter), and a reader that drops that bit keeps the five bytes in what it decodes
+					if tv, ok := info.Types[x.Y]; ok && tv.Value != nil {
+						if v, ok := constant.Int64Val(constant.ToInt(tv.Value)); ok && v != flag {
+							c.Fail("reader-mode."+fn[2]+".layout-bit", c.P.Pos(s.call.Pos()), fmt.Sprintf("%s.%s clears %s (%#x) from the module's mode, more than the GC visibility flag (%#x): the bit that says the node records carry a reference-count suffix goes with it, the read-only trie no longer cuts the suffix off, and the node bytes it hands out - the items of a state proof - have five extra bytes, so no proof it produces verifies", fn[1], fn[2], types.ExprString(x.Y), v, flag))
+							continue
+						}
+					}
 				}
 			case *ast.Ident:
 				v := info.ObjectOf(x)
